@@ -42,8 +42,28 @@ MODIFIES = {
 }
 
 
-def run_form(ctx, api, form, extra_models=None):
+def sym_options(ctx, api):
+    """Every documented option of the API as an arbitrary (symbolic) value, shared by the two forms: an option the
+    proto branch forgets to forward shows up as a different pass configuration."""
+    from pyvc.values import SInt, SBool
+    i = lambda n: SInt(ctx.int("opt_" + n))
+    b = lambda n: SBool(ctx.bool("opt_" + n))
+    if api == "optimizer.optimize":
+        return {"num_iterations": i("num_iterations"), "onnx_shape_inference": b("onnx_shape_inference"),
+                "stop_if_no_change": b("stop_if_no_change"), "input_size_limit": i("input_size_limit"),
+                "output_size_limit": i("output_size_limit"), "inline": b("inline")}
+    if api == "optimizer.fold_constants":
+        return {"onnx_shape_inference": b("onnx_shape_inference"), "input_size_limit": i("input_size_limit"),
+                "output_size_limit": i("output_size_limit")}
+    if api == "version_converter.convert_version":
+        return {"target_version": i("target_version"), "fallback": b("fallback")}
+    return {}
+
+
+def run_form(ctx, api, form, extra_models=None, options=None):
     fn, mode, kwargs, _rel, _qn = _apis()[api]
+    if options is not None:
+        kwargs = options
     I = Interp(ctx)
     W = World(I)
     if extra_models:
@@ -65,11 +85,12 @@ def passes_of(W, model_id):
     return [d for (mid, d) in W.log if mid == model_id]
 
 
-def s_wrapper(ctx, api):
+def s_wrapper(ctx, api, symbolic_options=False):
     fn, mode, kwargs, _rel, _qn = _apis()[api]
-    tag = f"C15.{api}"
+    tag = f"C15.{api}" + (".any_options" if symbolic_options else "")
     # IR form
-    I1, W1, m, res1, _ = run_form(ctx, api, "ir")
+    options = sym_options(ctx, api) if symbolic_options else None
+    I1, W1, m, res1, _ = run_form(ctx, api, "ir", options=options)
     ok_ir = not (isinstance(res1, tuple) and res1 and res1[0] == "raised")
     ctx.check(f"{tag}.ir_form.returns_normally", ok_ir, CL)
     if not ok_ir:
@@ -80,7 +101,7 @@ def s_wrapper(ctx, api):
     if mode == "functional":
         ctx.check(f"{tag}.ir_form.returns_the_model", res1 is m, CL)
     # proto form
-    I2, W2, p, res2, before = run_form(ctx, api, "proto")
+    I2, W2, p, res2, before = run_form(ctx, api, "proto", options=options)
     ok_p = not (isinstance(res2, tuple) and res2 and res2[0] == "raised")
     ctx.check(f"{tag}.proto_form.returns_normally", ok_p, CL)
     if not ok_p:
@@ -140,9 +161,9 @@ def s_replace_functions(ctx):
     ctx.check("C15.utils.replace_functions.argument_not_written", p.ghost_src == before, CL)
 
 
-def _mk(api):
+def _mk(api, symbolic_options=False):
     def run(ctx):
-        return s_wrapper(ctx, api)
+        return s_wrapper(ctx, api, symbolic_options)
     return run
 
 
@@ -153,6 +174,9 @@ SCENARIOS = [
                       "onnx_ir passes are in-place on the model object they are given"])
     for api in ["optimizer.optimize", "optimizer.fold_constants", "optimizer.remove_unused_nodes",
                 "optimizer.remove_unused_functions", "rewriter.rewrite", "version_converter.convert_version"]
+] + [
+    Scenario(f"C15.{api}[any options]", _mk(api, True), [(_apis()[api][3], _apis()[api][4])])
+    for api in ["optimizer.optimize", "optimizer.fold_constants", "version_converter.convert_version"]
 ] + [
     Scenario("C15.rewriter.rewrite[empty rules]", s_rewrite_empty_rules, [("onnxscript/rewriter/__init__.py", "rewrite")]),
     Scenario("C15.utils.replace_functions", s_replace_functions,
